@@ -253,6 +253,13 @@ def run(prop, tier, seed):
     for i in range(150 if tier == "quick" else 3000):
         T = g.dataclass(g.max_depth) if i % 2 else g.type()
         groups.append((T, [g.value(T) for _ in range(2)]))
+    # configured dataclass families without strategies (alias sources incl. two sources on one field, serialize_by_alias,
+    # omit_none / omit_default, nested classes with their own options): the schema must describe the documents AS CONFIGURED
+    from harness import cgen
+    cg = cgen.ConfGen(seed + 4242, plain_wire=True)
+    for i in range(120 if tier == "quick" else 2500):
+        T = cg.family()
+        groups.append((T, [cg.value(T) for _ in range(2)]))
     events = record(groups, {prop})
     events += extra_events(prop, seed, tier)
     if prop == "C20":
